@@ -6,13 +6,13 @@ HOME = os.path.dirname(os.path.dirname(os.path.abspath(__file__)))
 
 CHECKS = {
  # id: (category, technique, level text, level note, design ref)
- "C01": ("exploration", "differential runtime monitoring: same experiment re-run under generated execution configurations; canonical Result equality + seed/pid/arrival-order recorders",
+ "C01": ("exploration", "differential runtime monitoring: same experiment re-run under generated execution configurations (each multi-process configuration in its own interpreter, one after an earlier multi-process run); canonical Result equality + seed/pid/arrival-order recorders",
          "Held on the generated experiments x configurations actually executed (multi-process runs really spawn workers; arrival orders and worker pids are recorded).",
          "only deterministic picklable components; timing columns excluded; processes<=6", "3/C01"),
  "C02": ("fault_enumeration", "crash-point enumeration over byte-prefixes of real transaction logs; resumed run monitored by evaluation recorders and compared with the uninterrupted Result",
          "Every record boundary and (for small logs every, otherwise sampled) intra-record byte of real logs is replayed as a crash point against the real Experiment.run.",
          "a killed run leaves a byte-prefix of the log (validated by real SIGKILL runs); single writer", "3/C02"),
- "C03": ("exploration", "differential monitoring with stateful recording learners: rows of each triple inside a multi-triple experiment vs a solo pristine run; fault injection at params/read/predict/learn",
+ "C03": ("exploration", "differential monitoring with stateful recording learners: rows of each triple inside a multi-triple experiment vs a solo pristine run (in-process, and in fresh interpreters for sampled cases), permuted order, sampled multi-process configurations; fault injection at params/read/predict/learn/evaluate",
          "Held on the generated sharing patterns / failure positions executed.", "deterministic picklable components", "3/C03"),
  "C04": ("exploration", "read-history checker on real environment pipelines (full/partial reads, params, materialize/cache/chunk/pickle/save) with deep snapshots of caller-owned data",
          "Held on the generated pipelines x histories executed.", "seed=None filters and optional-package filters excluded", "3/C04"),
@@ -23,7 +23,7 @@ CHECKS = {
          "Held on the generated evaluations executed.", "dr/dm modes need vowpalwabbit and are excluded", "3/C06"),
  "C07": ("exploration", "recording evaluators/components; table rows vs yielded rows under the documented normalisation; three-way Result equality (no file / file / from_file)",
          "Held on the generated row shapes executed.", "keys colliding after str(), id column names and registered reward-state names are not generated", "3/C07"),
- "C08": ("exploration", "unique-id exactly-once history checker over real spawn-ed Multiprocessor runs with delay/yield injection, pid quota monitor, exception contract, logical deadlock-state inspector",
+ "C08": ("exploration", "unique-id exactly-once history checker over real spawn-ed Multiprocessor runs with seeded delay injection and sys.monitoring LINE/INSTRUCTION yield injection, targeted schedules (finish-together, loader-finishes-during-replacement), pid quota monitor, exception contract over several exception types, object re-use, logical deadlock-state inspector (two shapes)",
          "Held on the runs/interleavings actually produced (distinct lineage traces counted).", "outputs never None (poison pill by design); picklable items", "3/C08"),
  "C09": ("exploration", "per-filter reference models + unique-id content preservation on the real filters",
          "Held on the generated filter applications executed.", "which permutation a seed yields is not asserted", "3/C09"),
@@ -46,7 +46,7 @@ CHECKS = {
          "ordering comparisons on Missing cells checked differentially only; None-bearing columns never indexed", "3/C17"),
  "C18": ("exploration", "reference recomputation of where_fin/raw_learners/moving_average + referential-integrity invariant on every Result produced",
          "Held on the generated Results x queries executed.", "l and p always given explicitly", "3/C18"),
- "C19": ("exploration", "invariants at injected hooks (our lock/array/inner cacher) under a seeded controlled scheduler driving the real ConcurrentCacher; quiescence + deadlock rules; DiskCacher write-cut enumeration; multi-process event-log checker",
+ "C19": ("exploration", "invariants at injected hooks (our lock/array/inner cacher/time) under a seeded controlled scheduler (random walk + PCT) driving the real ConcurrentCacher; quiescence + deadlock rules; DiskCacher failure/cut enumeration; real-thread yield injection; multi-process event-log checker; the cacher CobaMultiprocessor builds, with real workers",
          "Held on the distinct schedules executed (trace hashes counted) at the quantifier's granularity.", "one caller never nests get_set on colliding keys", "3/C19"),
  "C20": ("exploration", "prime-valued inputs through the real InteractionsEncoder vs combinations-with-replacement reference; term lists enumerated up to a degree bound",
          "Held on the enumerated term lists x generated inputs executed.", "order within a term not asserted", "3/C20"),
